@@ -216,14 +216,24 @@ def c14_guards(g: int, d: int, a: int, b: int, flag: bool) -> int:
             else:
                 got = expect(lambda: Q.into(t).insert(1).returning(t.a).get_sql(dctx(d)), (QueryException,))
                 must = False
-        elif g == 7:  # RETURNING from a foreign table / aggregate
+        elif g == 7:  # RETURNING from a foreign table / aggregate; after a join without criterion
             if d != 2:
                 return SKIP
-            if flag:
-                got = expect(lambda: Q.into(t).insert(1).returning(u.a), (QueryException,))
-            else:
-                got = expect(lambda: Q.into(t).insert(1).returning(fn.Max(t.a)), (QueryException,))
-            must = True
+            if a == 1:
+                if flag:
+                    got = expect(lambda: Q.into(t).insert(1).returning(u.a), (QueryException,))
+                else:
+                    got = expect(lambda: Q.into(t).insert(1).returning(fn.Max(t.a)), (QueryException,))
+                must = True
+            elif a == 2:  # cross join: the joined table and the update table may be returned
+                w = Table("w")
+                got = expect(lambda: Q.update(t).join(u).cross().set(t.a, 1).returning(u.a if flag else t.a, 1).get_sql(dctx(d)),
+                             (QueryException,))
+                must = False
+            else:         # ... a third table may not
+                w = Table("w")
+                got = expect(lambda: Q.update(t).join(u).cross().set(t.a, 1).returning(w.a), (QueryException,))
+                must = True
         elif g == 8:  # into / update / delete are one-shot
             if a == 1:
                 got = expect(lambda: Q.into(t).into(u) if flag else Q.into(t).insert(1).get_sql(dctx(d)), (AttributeError,))
